@@ -332,16 +332,33 @@ def _text_guard(c: Ctx, f: Func, n: ast.AST, recv: ast.AST, cfg: CFG, res: dict)
     return False, f"the store to `{rt}.content` is not dominated by `{rt}.type == 'text'`"
 
 
+def _autolink_counters(g: Func) -> set[str]:
+    """Locals of g that are incremented / decremented under a test of a token's type against 'link_open' / 'link_close'."""
+    from ..syn import incr_of
+    out: set[str] = set()
+    for n in own_nodes(g.node):
+        if isinstance(n, ast.If) and any(isinstance(x, ast.Constant) and x.value in ("link_open", "link_close") for x in ast.walk(n.test)):
+            for s_ in ast.walk(n):
+                inc = incr_of(s_) if isinstance(s_, (ast.Assign, ast.AugAssign)) else None
+                if inc is not None and inc[0].isidentifier():
+                    out.add(inc[0])
+    return out
+
+
 def _autolink_guard(f: Func, n: ast.AST, cfg: CFG, res: dict, c: Ctx | None = None, recv: ast.AST | None = None) -> bool:
     if c is not None and recv is not None:
         yg = _yield_guards(c, f, recv)
         if yg:
-            return all(z is None or any(("autolink" in t.lower()) and (p is False) for (t, p) in z.preds) for (_, _, z) in yg)
+            cs_ = _autolink_counters(yg[0][0])
+            return bool(cs_) and all(z is None or any(t in cs_ and (p is False) for (t, p) in z.preds) for (_, _, z) in yg)
+    counters = _autolink_counters(f)
+    if not counters:
+        return False
     for cn in cfg.owner(n):
         z = res.get(cn.id)
         if z is None:
             continue
-        if not any(("autolink" in t.lower()) and (p is False) for (t, p) in z.preds):
+        if not any(t in counters and (p is False) for (t, p) in z.preds):
             return False
     return True
 
@@ -351,7 +368,9 @@ def _bookkeeping(c: Ctx, r: RuleResult, f: Func) -> None:
     the loop body (no `continue` can bypass them)."""
     cfg = c.cfg(f)
     for loop in [n for n in own_nodes(f.node) if isinstance(n, ast.For)]:
-        ups = [s for s in ast.walk(loop) if isinstance(s, ast.AugAssign) and isinstance(s.target, ast.Name) and "autolink" in s.target.id.lower()]
+        from ..syn import incr_of
+        counters = _autolink_counters(f)
+        ups = [s for s in ast.walk(loop) if isinstance(s, (ast.Assign, ast.AugAssign)) and (i_ := incr_of(s)) is not None and i_[0] in counters]
         if not ups:
             continue
         head = next((x for x in cfg.nodes if x.kind == "for" and x.ast is loop), None)
